@@ -222,7 +222,14 @@ def lift(x):
     if isinstance(x, (int, np.integer)):
         return T.iconst(int(x))
     if isinstance(x, (float, np.floating)):
-        return T.const(float(x))
+        x = float(x)
+        if x != x or x in (float('inf'), float('-inf')):
+            # a concrete nan/inf meets symbolic arithmetic: the value is undefined over the reals
+            name = ENG.fresh_name('undef')
+            ENG.poison.add(name)
+            ENG.notes.append('undefined: concrete %r in symbolic arithmetic' % x)
+            return T.var(name)
+        return T.const(x)
     if isinstance(x, Fraction):
         return T.const(x)
     if isinstance(x, np.ndarray) and x.ndim == 0:
